@@ -246,8 +246,11 @@ def record_days(bt, tops=None, limit=4000):
 
 
 def day_steps(events, standalone):
-    """group one top's events into `btday` steps.  A stand-alone backtest's first update (synthetic row) is a plain `update`
-    step (Backtest.run does not call run() there); a shadow copy is stepped with the full body on every date."""
+    """group one top's events into `btday` steps (a shadow copy's: `paperday` steps - the model's `paperDay` decides by the row
+    whether the algos run).  A stand-alone backtest's first update (synthetic row) is a plain `update` step (Backtest.run does
+    not call run() there); a shadow copy is only updated on row 0 as well (StrategyBase.update: `inow != 0`) and gets the full
+    body on every later date."""
+    day = "btday" if standalone else "paperday"
     steps = []
     i = 0
     first = True
@@ -282,7 +285,7 @@ def day_steps(events, standalone):
                     i += 3
                     continue
                 w2 = r["post"]
-                st = {"pre": e["pre"], "op": {"op": "btday", "d": d, "ran": True, "w2": w2}, "post": u2["post"]}
+                st = {"pre": e["pre"], "op": {"op": day, "d": d, "ran": True, "w2": w2}, "post": u2["post"]}
                 E.fill_paper(st["pre"]["root"], st["post"]["root"])
                 E.fill_paper(w2["root"], st["post"]["root"])
                 steps.append(st)
@@ -290,7 +293,7 @@ def day_steps(events, standalone):
                 continue
             i += 2
             continue
-        st = {"pre": e["pre"], "op": {"op": "btday", "d": d, "ran": False, "w2": None}, "post": e["post"]}
+        st = {"pre": e["pre"], "op": {"op": day, "d": d, "ran": False, "w2": None}, "post": e["post"]}
         E.fill_paper(st["pre"]["root"], st["post"]["root"])
         steps.append(st)
         i += 1
